@@ -2291,6 +2291,8 @@ func (pf *pfunc) applyClauses(sc *ssa.Function, ci *ssa.Call, fs *factSet) {
 	}
 	at := pf.posOf[ci]
 	sum := pf.P.O.Sums[sc]
+	inPhiResolve := false
+	var translateRef func(cd condAt) *vn
 	translate := func(cd condAt) *vn {
 		subst := map[ssa.Value]*vn{}
 		for i, p := range sc.Params {
@@ -2301,6 +2303,34 @@ func (pf *pfunc) applyClauses(sc *ssa.Function, ci *ssa.Call, fs *factSet) {
 		allowed := map[string]bool{}
 		for _, a := range subst {
 			allowed[a.key] = true
+		}
+		// an integer merged inside the callee (count := 0; if tx != nil { count = tx.InputCount() }) stands for the
+		// incoming value whose way in agrees with what is known at the call
+		if !inPhiResolve {
+			inPhiResolve = true
+			var visit func(v ssa.Value, depth int)
+			visit = func(v ssa.Value, depth int) {
+				if depth > 3 {
+					return
+				}
+				switch x := v.(type) {
+				case *ssa.BinOp:
+					visit(x.X, depth+1)
+					visit(x.Y, depth+1)
+				case *ssa.Convert:
+					visit(x.X, depth+1)
+				case *ssa.Phi:
+					if isIntType(x.Type()) && len(x.Edges) == 2 && subst[x] == nil {
+						if e := pf.phiEdgeAtCall(sc, x, translateRef, fs); e != nil {
+							pf.inlineDepth++
+							subst[x] = pf.numberAt(e, at, subst)
+							pf.inlineDepth--
+						}
+					}
+				}
+			}
+			visit(cd.v, 0)
+			inPhiResolve = false
 		}
 		pf.inlineDepth++
 		n := pf.numberAt(cd.v, at, subst)
@@ -2313,6 +2343,7 @@ func (pf *pfunc) applyClauses(sc *ssa.Function, ci *ssa.Call, fs *factSet) {
 		}
 		return n
 	}
+	translateRef = translate
 	for round := 0; round < 3; round++ {
 		before := len(fs.facts)
 		for _, cl := range cls {
@@ -2445,4 +2476,65 @@ func containsOpExcept(n *vn, allowed map[string]bool, depth int, ops ...string) 
 		}
 	}
 	return false
+}
+
+// phiEdgeAtCall: ph is a two-way merge inside callee sc decided by one branch of its immediate dominator; if the
+// facts at the call refute one outcome of that branch, the incoming value of the other.
+func (pf *pfunc) phiEdgeAtCall(sc *ssa.Function, ph *ssa.Phi, translate func(condAt) *vn, fs *factSet) ssa.Value {
+	m := ph.Block()
+	d := m.Idom()
+	if d == nil || isLoopHeader(m) {
+		return nil
+	}
+	iff, ok := d.Instrs[len(d.Instrs)-1].(*ssa.If)
+	if !ok {
+		return nil
+	}
+	side := func(p *ssa.BasicBlock) int {
+		if p == d {
+			for i, s := range d.Succs {
+				if s == m {
+					return i
+				}
+			}
+			return -1
+		}
+		for i, s := range d.Succs {
+			if s != m && s.Dominates(p) {
+				return i
+			}
+		}
+		return -1
+	}
+	s0, s1 := side(m.Preds[0]), side(m.Preds[1])
+	if s0 < 0 || s1 < 0 || s0 == s1 {
+		return nil
+	}
+	refuted := func(truth bool) bool {
+		conds := pf.translateCond(sc, condAt{iff.Cond, truth}, translate)
+		if conds == nil {
+			return false
+		}
+		tmp := &factSet{}
+		for _, f := range fs.facts {
+			tmp.add(f)
+		}
+		for _, c := range conds {
+			pf.condFacts(c.n, c.truth, "merge gate", tmp, 0)
+		}
+		return pf.inconsistent(tmp)
+	}
+	switch {
+	case refuted(false): // the branch was taken the true way (successor 0)
+		if s0 == 0 {
+			return ph.Edges[0]
+		}
+		return ph.Edges[1]
+	case refuted(true):
+		if s0 == 1 {
+			return ph.Edges[0]
+		}
+		return ph.Edges[1]
+	}
+	return nil
 }
